@@ -22,6 +22,7 @@ fn main() {
         "run" => driver::run(&args[2], tier_of(args.get(3).map(|s| s.as_str()).unwrap_or("quick"))),
         "worker" => worker(&args[2..]),
         "replay" => replay(&args[2]),
+        "c19call" => props::c19::call_main(&args[2]),
         "list" => {
             for p in props::all() {
                 println!("{}", p.id);
